@@ -62,10 +62,12 @@ PRIORS = ("nothing", "database", "database+schema")  # what exists before the fi
 #   previous       : exists as files of a previous, closed instance; nothing of it is attached in the new instance
 CONNECT_ARGS = tuple((d, s) for d in DATABASE_ARGS for s in SCHEMA_ARGS)  # 16
 CONFIGS = tuple((cd, cs, st, pr) for cd, cs in FLAGS for st in STORAGES for pr in PRIORS)  # 36
-DEPTH = {"quick": 2, "thorough": 3}
-# quick tier: the first connect uses the complete alphabet (576 first connects); a later connect one spelling of each
-# of the 6 distinct (database, schema) requests
-QUICK_NEXT_ARGS = ((None, None), (None, "s1"), (None, "information_schema"), ("db1", None), ("DB1", "S1"), ("Db1", "information_schema"))
+# one spelling of each of the 6 distinct (database, schema) requests (letter case is local to one connect call; it is
+# covered completely by the steps that use CONNECT_ARGS)
+CANON_ARGS = ((None, None), (None, "s1"), (None, "information_schema"), ("db1", None), ("DB1", "S1"), ("Db1", "information_schema"))
+# alphabet of the k-th connect of a history, per tier. quick: 576 first connects + second connect over CANON_ARGS;
+# thorough: first and second connect over the complete alphabet, third over CANON_ARGS
+STEP_ALPHABETS = {"quick": (CONNECT_ARGS, CANON_ARGS), "thorough": (CONNECT_ARGS, CONNECT_ARGS, CANON_ARGS)}
 
 INFO = "INFORMATION_SCHEMA"  # exists in every database (Snowflake: every database has INFORMATION_SCHEMA)
 
@@ -605,12 +607,14 @@ def explore(item, acc: core.Acc, tier):
 
 
 def run(ctx: core.Ctx):
-    depth = DEPTH[ctx.tier]
+    steps = STEP_ALPHABETS[ctx.tier]
+    depth = len(steps)
     ctx.rule = (
         "explicit-state search: initial states = complete product flags(2x2) x storage(memory, db_path fresh, db_path "
         "with a previous instance's files) x prior(nothing, database, database+schema) = 36; transitions = connect with "
-        "every (database, schema) of the written-out 4x4 alphabet; histories of 1.."
-        f"{depth} connects, deduplicated on the state reached (model catalog + disk + session contexts, DuckDB-level "
+        "every (database, schema) of the written-out 4x4 alphabet ("
+        + ", then ".join(f"{len(a)} argument combinations" for a in steps)
+        + f" for connect 1..{depth} of a history); histories of 1..{depth} connects, deduplicated on the state reached (model catalog + disk + session contexts, DuckDB-level "
         "session context, outcomes of the sessions' first unqualified statements); every history runs on a fresh real "
         "instance and is judged after its last connect; non-trivial = the option table creates something, or leaves "
         "the session without current database/schema, or connect raised"
@@ -622,7 +626,8 @@ def run(ctx: core.Ctx):
         "the first session's context comes from USE SCHEMA (C03's subject); a broken fixture is a harness error",
     ]
     ctx.extra["alphabet"] = {
-        "later_connects_quick": [list(a) for a in QUICK_NEXT_ARGS],
+        "canonical_spellings": [list(a) for a in CANON_ARGS],
+        "alphabet_size_per_step": [len(a) for a in steps],
         "database": list(DATABASE_ARGS),
         "schema": list(SCHEMA_ARGS),
         "flags": [list(f) for f in FLAGS],
@@ -639,7 +644,7 @@ def run(ctx: core.Ctx):
     complete = True
     first_connects = 0
     for d in range(1, depth + 1):
-        alphabet = QUICK_NEXT_ARGS if (ctx.quick and d > 1) else CONNECT_ARGS
+        alphabet = steps[d - 1]
         items = [(cfg, tuple(hist) + (a,), obs) for cfg, hist, obs in frontier for a in alphabet]
         if d == 1:
             first_connects = len(items)
@@ -660,10 +665,10 @@ def run(ctx: core.Ctx):
     for s in sorted(map(repr, seen)):
         ctx.acc.add("states", s)
     ctx.extra["first_connects_complete_product"] = first_connects
-    ctx.extra["bound"] = f"histories of up to {depth} connects from each of {len(CONFIGS)} configurations; " + (
-        "all 16 argument combinations for the first connect, 6 (one spelling per distinct request) for the second"
-        if ctx.quick
-        else "all 16 argument combinations at every step"
+    ctx.extra["bound"] = (
+        f"histories of up to {depth} connects from each of {len(CONFIGS)} configurations; argument combinations per step: "
+        + "/".join(str(len(a)) for a in steps)
+        + " (16 = complete 4x4 alphabet, 6 = one spelling per distinct request)"
     )
     ctx.extra["frontier_left_unexpanded"] = len(frontier)
     ctx.exhaustive = bool(complete)
